@@ -228,9 +228,18 @@ class TCPRegistryServer(RegistryServer):
         return logging.getLogger("REGSRV/TCP/%d" % (self.port,))
 
     def _recv(self):
+        # a request that got no reply leaves its socket behind; release it before accepting the next one
+        while self._connected_sockets:
+            self._connected_sockets.popitem()[1].close()
         sock2, _ = self.sock.accept()
-        addrinfo = sock2.getpeername()
-        data = sock2.recv(MAX_DGRAM_SIZE)
+        try:
+            # accepted sockets do not inherit the listener's timeout
+            sock2.settimeout(self.TIMEOUT)
+            addrinfo = sock2.getpeername()
+            data = sock2.recv(MAX_DGRAM_SIZE)
+        except Exception:
+            sock2.close()
+            raise
         self._connected_sockets[addrinfo] = sock2
         return data, addrinfo
 
